@@ -309,6 +309,7 @@ prop("C03",
            "points, frame cases with N >= 5 or a format other than f32/u8; distinct by hash of (format, value) / (format, N); evaluations = individual comparisons"),
      stages=[
          {"name": "main", "build": "fast", "bin": "c03"},
+         {"name": "release", "build": "release", "bin": "c03"},
          {"name": "miri", "build": "miri-sb", "bin": "c03", "shards": {"quick": 8, "thorough": 16}, "timeout": {"quick": 1500, "thorough": 7200}},
      ])
 
